@@ -73,7 +73,11 @@ def validate_forests(files, module, cfg, verdict, sig_fn, workers_per=4, paralle
                 verdict.machinery_failure("%s: %d nodes logged but %d states reached (tree not fully walked)" % (path, n, r.distinct))
     tot["wall"] = time.time() - t0
     # attribute
-    for v in tot["bad"]:
+    for v in list(tot["bad"]):
+        if v["clause"].startswith("harness_"):
+            verdict.machinery_failure("the harness itself misbehaved (%s) at %s" % (v["clause"], json.dumps(load_history(v["file"], v["node"]))[:400]))
+            tot["bad"].remove(v)
+            continue
         hist = load_history(v["file"], v["node"])
         sig = sig_fn(v["clause"], hist)
         rep = {"clause": v["clause"], "history": hist}
